@@ -206,7 +206,10 @@ Fixpoint judge_proxy (ra shared shmem : bool) (steps obs : list val) : N :=
         let sfds := match first_seg script with Some (_, f) => f | None => [] end in
         let good := reply_hdr_ok (breq_code name) sb (Some 8) && match sfds with [] => true | _ => false end in
         if negb ra then (if is_ok res then judge_proxy ra shared shmem rs ro else 18)
-        else if is_ok res then (if good && (u sb 12 8 =? 0) then judge_proxy ra shared shmem rs ro else 6)
+        else if is_ok res then
+          (if good && (u sb 12 8 =? 0) then judge_proxy ra shared shmem rs ro
+           (* accepted although the stream ended inside the acknowledgement: C08 as much as C06 *)
+           else if (N.of_nat (List.length sb) <? 12) || (N.of_nat (List.length sb) <? 12 + u sb 8 4) then 68 else 6)
         else (if good && (u sb 12 8 =? 0) then 18 else judge_proxy ra shared shmem rs ro)
   | _, _ => 6
   end.
@@ -214,7 +217,8 @@ Definition proxy_spec (args : list val) : val :=
   match args with
   | [VL [VN ra; VN sh; VN sm]; VL steps; VL obs] =>
       let v := judge_proxy (ra =? 1) (sh =? 1) (sm =? 1) steps obs in
-      if v =? 0 then VS "true" else if v =? 6 then VS "false:C06" else if v =? 7 then VS "false:C07" else VS "false:C18"
+      if v =? 0 then VS "true" else if v =? 6 then VS "false:C06" else if v =? 68 then VS "false:C06,C08"
+      else if v =? 7 then VS "false:C07" else VS "false:C18"
   | [_; _; _] => VS "false:C06"
   | _ => verror "args"
   end.
